@@ -56,6 +56,11 @@ def build(pkg, bin_name, flavor="native", quiet=True, features=None):
         env = cargo_env("-Zsanitizer=address -Cforce-frame-pointers=yes", TARGET_BASE + "-asan")
         cmd = ["cargo", "+nightly", "build", "--release", "--offline", "--target", "x86_64-unknown-linux-gnu", "-p", pkg, "--bin", bin_name]
         out = os.path.join(env["CARGO_TARGET_DIR"], "x86_64-unknown-linux-gnu", "release", bin_name)
+    elif flavor == "checked":
+        # release optimisation with the arithmetic-overflow checks and debug assertions of a dev/test build
+        env = cargo_env("-Coverflow-checks=on -Cdebug-assertions=on", TARGET_BASE + "-checked")
+        cmd = ["cargo", "build", "--release", "--offline", "-p", pkg, "--bin", bin_name]
+        out = os.path.join(env["CARGO_TARGET_DIR"], "release", bin_name)
     elif flavor == "tsan":
         env = cargo_env("-Zsanitizer=thread", TARGET_BASE + "-tsan")
         cmd = ["cargo", "+nightly", "build", "--release", "--offline", "-Zbuild-std", "--target", "x86_64-unknown-linux-gnu", "-p", pkg, "--bin", bin_name]
@@ -538,7 +543,7 @@ def simple_check(prop, pkg, bin_name, tier, seed, scratch, t0, level, rule, assu
 def generic_replay(rp, scratch, pkg, features=None):
     """Re-execute exactly the case named in a replay file and print what it reports."""
     r = rp["replay"]
-    binpath = build(pkg, r["bin"], features=features)
+    binpath = build(pkg, r["bin"], flavor=r.get("flavor", "native"), features=features)
     j = os.path.join(scratch, "replay.jsonl")
     cmd = [binpath, "--tier", r["tier"], "--seed", str(r["seed"]), "--only", str(r["only"]), "--out", j, "--scratch", scratch] + list(r.get("args") or [])
     p = subprocess.run(cmd, cwd=scratch, stdout=subprocess.DEVNULL, stderr=subprocess.PIPE, text=True)
